@@ -33,6 +33,10 @@ import (
 
 type check struct{}
 
+var debugSigs bool // DEBUG-ONLY
+var debugCount = map[string]int{} // DEBUG-ONLY
+var debugEx = map[string]string{} // DEBUG-ONLY
+
 func init() { harness.Register(check{}) }
 
 func (check) ID() string { return "C20" }
@@ -667,6 +671,10 @@ func (w *world) report(usage string, pos position, key string, st setting, segs 
 	sg := segs[i]
 	single := len(segs) == 1
 	sig := sigFor(sg, st, single, d, devFalse)
+	if debugSigs {
+		debugCount[sig+"|"+usage+"|"+d.obs+"|"+pos.name+"|"+fmt.Sprint(st.e)]++
+		debugEx[sig+"|"+usage+"|"+d.obs+"|"+pos.name+"|"+fmt.Sprint(st.e)] = fmt.Sprintf("%q %s %s", key, st, d.detail+d.pval)
+	}
 	if w.capped(sig) {
 		return treatedAsIndex(sg, d)
 	}
@@ -1077,6 +1085,10 @@ func (w *world) prepare(s string, prefix, suffix []string) (hy hybrid, ok bool) 
 
 func (w *world) getterDeviation(op string, pos position, key string, st setting, sg segment, single bool, d deviation, devFalse bool) bool {
 	sig := sigFor(sg, st, single, d, devFalse)
+	if debugSigs {
+		debugCount[sig+"|"+op+"|"+d.obs+"|"+pos.name+"|"+fmt.Sprint(st.e)]++
+		debugEx[sig+"|"+op+"|"+d.obs+"|"+pos.name+"|"+fmt.Sprint(st.e)] = fmt.Sprintf("%q %s %s", key, st, d.detail+d.pval)
+	}
 	if w.capped(sig) {
 		return treatedAsIndex(sg, d)
 	}
